@@ -34,6 +34,26 @@ pub enum Effect {
     Schema { rel: String, cols: Vec<(String, String)> },
     /// request-local ("session") schema declaration: must not influence persistent state
     SessionSchema { rel: String, cols: Vec<(String, String)> },
+    CreateKg { name: String },
+    DropKg { name: String },
+}
+
+/// what a program sent over a session means for that session's own (ephemeral) state
+#[derive(Clone, Debug, Serialize, Deserialize, PartialEq, Default)]
+#[serde(tag = "s", rename_all = "snake_case")]
+pub enum SEffect {
+    #[default]
+    None,
+    /// `.kg use <kg>`: the session moves to another graph and loses its ephemeral state
+    SwitchKg { kg: String },
+    /// `.session drop <n>` (1-based)
+    DropRuleIndex { index: usize },
+    /// `.session drop <head name>`
+    DropRuleName { name: String },
+    /// a fact statement without `+` sent over the session
+    AddFact { rel: String, tuple: T },
+    /// a rule statement without `+` sent over the session
+    AddRule { text: String },
 }
 
 #[derive(Clone, Debug, Serialize, Deserialize, PartialEq)]
@@ -52,7 +72,9 @@ pub enum HOp {
     SessRetract { slot: usize, rel: String, tuples: Vec<T> },
     SessAddRule { slot: usize, text: String },
     /// a program sent over the session (".session clear", session facts "f(1,2)", persistent writes ...)
-    SessExec { slot: usize, text: String, effect: Effect, clears_session: bool },
+    SessExec { slot: usize, text: String, effect: Effect, clears_session: bool, #[serde(default)] seffect: SEffect },
+    /// WebSocket attach / detach of a session (an attached session is never reaped)
+    SessAttach { slot: usize, attach: bool },
     SessQuery { slot: usize, text: String },
     SessClose { slot: usize },
     Reap,
@@ -66,6 +88,10 @@ pub enum HOp {
     /// one stateless request made of several statements (executed in program order); each statement
     /// carries its meaning for the model; at most one of them is an insert
     Multi { kg: String, stmts: Vec<(String, Effect)> },
+    /// a program in engine syntax run on the knowledge graph's own long-lived engine
+    /// (StorageEngine::with_kg_mut + KnowledgeGraph::execute_with_rules_tuples), answer compared with the
+    /// same call on a pristine store loaded from the model (engine history must not matter)
+    KgEngineQuery { kg: String, text: String },
     /// engine-level maintenance (shared with DUR)
     SaveAll,
     CompactAll,
@@ -278,6 +304,9 @@ impl<'a> X<'a> {
     /// query text, through the same request path of a handler that has no other state.
     fn oracle(&mut self, kg: &str, extra_facts: &BTreeMap<String, BTreeSet<T>>, extra_rules: &[String], query: &str) -> Result<Vec<T>, String> {
         self.oracle_n += 1;
+        if !self.model.kgs.contains_key(kg) {
+            return Err(format!("knowledge graph {kg} does not exist in the model"));
+        }
         let dir = format!("{}/oracle-{}", root_dir(), self.oracle_n);
         // same worker count as the engine under test: evaluation defects (the business of C01-C08,
         // not of these scenarios) must cancel out, isolation/visibility/staleness defects must not
@@ -321,6 +350,39 @@ impl<'a> X<'a> {
         res.map(|r| rows_of(&r))
     }
 
+    /// Fresh evaluation through the knowledge graph's own engine on a pristine store loaded from the model.
+    fn oracle_engine(&mut self, kg: &str, text: &str) -> Result<Vec<T>, String> {
+        self.oracle_n += 1;
+        if !self.model.kgs.contains_key(kg) {
+            return Err(format!("knowledge graph {kg} does not exist in the model"));
+        }
+        let dir = format!("{}/oracle-{}", root_dir(), self.oracle_n);
+        let mut ocfg = EngineCfg::default();
+        ocfg.num_threads = self.case.cfg.num_threads;
+        let mut cfg = make_config(&ocfg);
+        cfg.storage.data_dir = std::path::PathBuf::from(&dir);
+        let eng = StorageEngine::new(cfg).map_err(|e| format!("oracle engine: {e}"))?;
+        if kg != "default" {
+            eng.create_knowledge_graph(kg).map_err(|e| e.to_string())?;
+        }
+        let k = self.model.kgs.get(kg).cloned().unwrap_or_default();
+        for (rel, ts) in &k.rels {
+            if !ts.is_empty() {
+                eng.insert_tuples_into(kg, rel, ts.iter().map(to_tuple).collect()).map_err(|e| format!("oracle insert: {e}"))?;
+            }
+        }
+        for clauses in k.rules.values() {
+            for text in clauses {
+                let def = inputlayer::statement::parse_rule_definition(text).map_err(|e| format!("oracle rule parse: {e}"))?;
+                eng.register_rule_in(kg, &def).map_err(|e| format!("oracle rule: {e}"))?;
+            }
+        }
+        let r = eng.with_kg_mut(kg, |k| k.execute_with_rules_tuples(text)).map_err(|e| e.to_string())?;
+        let mut rows: Vec<T> = r.iter().map(|t| crate::values::from_tuple(t).into_iter().map(norm_v).collect()).collect();
+        rows.sort();
+        Ok(rows)
+    }
+
     fn check_persistent(&mut self, step: usize) -> Result<(), Failure> {
         let obs = {
             let g = self.h().get_storage();
@@ -344,6 +406,21 @@ impl<'a> X<'a> {
 
     fn apply_effect(&mut self, kg: &str, effect: &Effect, msgs: &[String], step: usize, errored: bool) -> Result<(), Failure> {
         let check = self.case.check_reports;
+        match effect {
+            Effect::CreateKg { name } => {
+                if !errored && !msgs.iter().any(|m| m.contains("already exists") || m.contains("rror")) {
+                    let _ = self.model.create_kg(name);
+                }
+                return Ok(());
+            }
+            Effect::DropKg { name } => {
+                if !errored && !msgs.iter().any(|m| m.contains("not found") || m.contains("rror") || m.contains("Cannot")) {
+                    let _ = self.model.drop_kg(name);
+                }
+                return Ok(());
+            }
+            _ => {}
+        }
         let Some(k) = self.model.kgs.get_mut(kg) else { return Ok(()) };
         let has = |needle: &str| msgs.iter().any(|m| m.contains(needle));
         match effect {
@@ -486,7 +563,7 @@ impl<'a> X<'a> {
                     k.schemas.insert(rel.clone(), cols.clone());
                 }
             }
-            Effect::SessionSchema { .. } => {}
+            Effect::SessionSchema { .. } | Effect::CreateKg { .. } | Effect::DropKg { .. } => {}
         }
         Ok(())
     }
@@ -593,7 +670,7 @@ impl<'a> X<'a> {
                 }
                 self.check_persistent(i)?;
             }
-            HOp::SessExec { slot, text, effect, clears_session } => {
+            HOp::SessExec { slot, text, effect, clears_session, seffect } => {
                 let Some((id, kg)) = self.sessions.get(slot).map(|s| (s.id.clone(), s.kg.clone())) else { return Ok(()) };
                 let alive_before = self.h().session_manager().has_session(&id);
                 let r = self.run_program(Some(&id), None, text.clone());
@@ -604,16 +681,55 @@ impl<'a> X<'a> {
                 self.logln(&format!("step {i} sess_exec {slot} {text:?} -> {msgs:?}"));
                 if alive_before {
                     self.apply_effect(&kg, effect, &msgs, i, errored)?;
-                    if *clears_session && !errored {
+                    if !errored {
+                        let known_kg = |m: &StoreModel, k: &str| m.kgs.contains_key(k);
+                        let target_known = match seffect {
+                            SEffect::SwitchKg { kg } => known_kg(&self.model, kg),
+                            _ => true,
+                        };
                         let s = self.sessions.get_mut(slot).expect("slot");
-                        s.facts.clear();
-                        s.rules.clear();
+                        if *clears_session {
+                            s.facts.clear();
+                            s.rules.clear();
+                        }
+                        match seffect {
+                            SEffect::None => {}
+                            SEffect::SwitchKg { kg } => {
+                                if target_known {
+                                    s.kg = kg.clone();
+                                    s.facts.clear();
+                                    s.rules.clear();
+                                }
+                            }
+                            SEffect::DropRuleIndex { index } => {
+                                if *index >= 1 && *index <= s.rules.len() {
+                                    s.rules.remove(*index - 1);
+                                }
+                            }
+                            SEffect::DropRuleName { name } => {
+                                s.rules.retain(|t| t.split('(').next().map(str::trim) != Some(name.as_str()));
+                            }
+                            SEffect::AddFact { rel, tuple } => {
+                                s.facts.entry(rel.clone()).or_default().insert(tuple.clone());
+                            }
+                            SEffect::AddRule { text } => s.rules.push(text.clone()),
+                        }
                     }
                 } else if !matches!(effect, Effect::None) && !errored {
                     // a reaped session falls back to a stateless request: the persistent effect still applies
                     self.apply_effect(&kg, effect, &msgs, i, errored)?;
                 }
                 self.check_persistent(i)?;
+            }
+            HOp::SessAttach { slot, attach } => {
+                let Some(id) = self.sessions.get(slot).map(|s| s.id.clone()) else { return Ok(()) };
+                if *attach {
+                    let r = self.h().session_manager().attach_ws(&id);
+                    self.logln(&format!("step {i} attach_ws {slot} -> {}", r.is_ok()));
+                } else {
+                    self.h().session_manager().detach_ws(&id);
+                    self.logln(&format!("step {i} detach_ws {slot}"));
+                }
             }
             HOp::SessQuery { slot, text } => {
                 let Some((id, kg)) = self.sessions.get(slot).map(|s| (s.id.clone(), s.kg.clone())) else { return Ok(()) };
@@ -787,6 +903,21 @@ impl<'a> X<'a> {
                     }
                     self.apply_effect(kg, effect, &msgs, i, errored)?;
                 }
+                self.check_persistent(i)?;
+            }
+            HOp::KgEngineQuery { kg, text } => {
+                let got = {
+                    let g = self.h().get_storage();
+                    g.with_kg_mut(kg, |k| k.execute_with_rules_tuples(text))
+                }
+                .map(|ts| {
+                    let mut rows: Vec<T> = ts.iter().map(|t| crate::values::from_tuple(t).into_iter().map(norm_v).collect()).collect();
+                    rows.sort();
+                    rows
+                })
+                .map_err(|e| e.to_string());
+                let want = self.oracle_engine(kg, text);
+                self.compare_answers(i, "stateless_query", text, got, want, &BTreeSet::new())?;
                 self.check_persistent(i)?;
             }
             HOp::SaveAll => {
